@@ -421,7 +421,7 @@ func RuntimeValue(t *T, s *model.Schema, ty model.TypeRef, depth int, asDefault 
 		if chance(t, 30, "floatAsInt") {
 			return model.Int(int64(intn(t, -5, 5, "fi")))
 		}
-		return model.Float(rapid.SampledFrom([]float64{0.5, -1.25, 3.0, 1e10, 2.5e-3}).Draw(t, "float"))
+		return model.Float(rapid.SampledFrom([]float64{0.5, -1.25, 3.0, 1e10, 2.5e-3, 1e19, -1e19, 1e21, 1.5e300, 9007199254740993, 123456789.125, 1e-7, -4.9e-324}).Draw(t, "float"))
 	case "String":
 		if chance(t, 35, "composedStr") {
 			return model.Str(rnd.ComposeString(t))
